@@ -336,7 +336,7 @@ def f11(src, st):
                 try: v = int(t, 0)
                 except ValueError: continue
                 lits[v] = lits.get(v, 0) + 1
-            for k in sorted(lits): out.append((mod, 'lit:%d' % k, lits[k]))
+            for k in sorted(lits): out.append((mod, ('lit:%d' if k >= 10 else 'sml:%d') % k, lits[k]))      # one-digit literals: full budget only
             for k in sorted(strs): out.append((mod, 'str:' + k, strs[k]))
             for k in sorted(chrs): out.append((mod, 'chr:' + k, chrs[k]))
     st['F11'] = 'ok'
